@@ -71,7 +71,7 @@ int run_c14(const Args& a, Recorder& rec) {
 // ------------------------------------------------------------------------------------------------ C19
 int run_c19(const Args& a, Recorder& rec) {
     Clock clk; std::vector<double> betas = { 1, 10, 100 }, epss = { 0, 1e-12, 1e-6, 1e-2 };
-    std::vector<PlanItem> plan = plan_modelspace(a, "g");
+    std::vector<PlanItem> plan = plan_modelspace(a, "m");
     for_each_state(a, rec, plan, [&](Ctx& c) {
         if (stage_states(c, rec, SYM_DEFAULT, 0, true) != ST_OK) return;
         Pipe& P = c.P; int M = P.M, D = P.D; P.make_hamiltonian(); P.make_ops();
@@ -133,7 +133,7 @@ int run_c19(const Args& a, Recorder& rec) {
 struct Obs8 { std::vector<double> spec, wts; double E, N; std::vector<double> occ; std::vector<cd> G, X, chi; };
 
 int run_c08(const Args& a, Recorder& rec) {
-    Clock clk; std::vector<PlanItem> plan = plan_modelspace(a, "g");
+    Clock clk; std::vector<PlanItem> plan = plan_modelspace(a, "m");
     std::vector<std::vector<std::string> > customs = { { "N" }, { "Sz" }, { "N_site[A]" }, { "n_0" }, { "N_up", "N_down" }, { "N", "Sz" }, { "N_orb0" } };
     double beta = 5; std::vector<long> ns = { -2, -1, 0, 1, 7 };
     for_each_state(a, rec, plan, [&](Ctx& c0) {
